@@ -356,16 +356,14 @@ pub fn run(tier: Tier) -> CheckResult {
     let deadline = tier_deadline(tier);
     let mut scenarios: Vec<Scenario> = vec![];
     let (bases, edits): (Vec<&str>, Vec<&str>) = match tier {
-        Tier::Quick => (vec!["b0"], vec!["field_type", "add_command"]),
-        Tier::Thorough => (vec!["b0", "b2"], vec!["field_type", "add_command", "return_type", "event_payload"]),
+        Tier::Quick => (vec!["b0"], vec!["field_type", "add_command", "event_payload"]),
+        Tier::Thorough => (vec!["b0", "b2"], vec!["field_type", "add_command", "return_type", "event_payload", "variant_add", "skip_add", "event_add", "remove_channel"]),
     };
     for base in &bases {
         for zod in [false, true] {
             for seam in ["cli", "build"] {
                 for visualize in [false, true] {
-                    if tier == Tier::Quick && visualize && zod {
-                        continue;
-                    }
+
                     scenarios.push(Scenario { base: base.to_string(), zod, seam: seam.into(), visualize, pre_edit: None, forced: false });
                     if *base == "b0" {
                         for e in &edits {
@@ -400,9 +398,7 @@ pub fn run(tier: Tier) -> CheckResult {
             let faults: Vec<Fault> = if ev.syscall.starts_with("unlink") {
                 vec![Fault::Eacces, Fault::Kill]
             } else if ev.syscall == "openat" {
-                if tier == Tier::Quick { vec![Fault::Eacces, Fault::Kill] } else { vec![Fault::Eio, Fault::Enospc, Fault::Eacces, Fault::Kill] }
-            } else if tier == Tier::Quick {
-                vec![Fault::Enospc, Fault::Kill]
+                vec![Fault::Eio, Fault::Enospc, Fault::Eacces, Fault::Kill]
             } else {
                 vec![Fault::Eio, Fault::Enospc, Fault::Kill]
             };
